@@ -108,6 +108,10 @@ struct Published {
     nsupport: usize,
     display: String,
     r_serialised: Option<f64>,
+    /// (index j, largest |change| of a decision value) after a zero coefficient alpha_j in front of a
+    /// support vector was replaced by 50 eps_F - a value fits do publish (it is below the solver's
+    /// support-vector threshold 100 eps_F) and that must stay without effect
+    subthreshold: Option<(usize, f64)>,
 }
 
 fn apply_kernel<F: Fl, T>(p: linfa_svm::SvmParams<F, T>, k: Kern) -> linfa_svm::SvmParams<F, T> {
@@ -126,16 +130,27 @@ fn run_fit<F: Fl>(pb: &Problem, want_pr: bool) -> Result<Published, String> {
     all.slice_mut(ndarray::s![..x.nrows(), ..]).assign(&x);
     all.slice_mut(ndarray::s![x.nrows().., ..]).assign(&fresh);
     let eps = F::cast(pb.eps);
-    fn collect<F: Fl, T>(m: &Svm<F, T>, all: &Array2<F>) -> (Vec<f64>, f64, Vec<f64>, usize, String, Option<f64>) {
+    fn collect<F: Fl, T>(m: &mut Svm<F, T>, all: &Array2<F>) -> (Vec<f64>, f64, Vec<f64>, usize, String, Option<f64>, Option<(usize, f64)>) {
         let alpha: Vec<f64> = m.alpha.iter().map(|a| to64(*a)).collect();
         let dec: Vec<f64> = all
             .outer_iter()
             .map(|r| to64(m.weighted_sum(&r) - m.rho))
             .collect();
-        let r = serde_json::to_value(m)
+        let last_sv = alpha.iter().rposition(|a| a.abs() > 100.0 * to64(F::epsilon()));
+        let sub = last_sv.and_then(|l| alpha[..l].iter().position(|a| *a == 0.0)).map(|j| {
+            m.alpha[j] = F::cast(50.0) * F::epsilon();
+            let shift = all
+                .outer_iter()
+                .zip(dec.iter())
+                .map(|(r, d)| (to64(m.weighted_sum(&r) - m.rho) - d).abs())
+                .fold(0.0f64, |a, b| if b.is_nan() { f64::INFINITY } else { a.max(b) });
+            m.alpha[j] = F::zero();
+            (j, shift)
+        });
+        let r = serde_json::to_value(&*m)
             .ok()
             .and_then(|v| v.get("r").and_then(|r| r.as_f64()));
-        (alpha, to64(m.rho), dec, m.nsupport(), format!("{m}"), r)
+        (alpha, to64(m.rho), dec, m.nsupport(), format!("{m}"), r, sub)
     }
     match pb.kind {
         Kind::CSvc { .. } | Kind::NuSvc { .. } => {
@@ -152,23 +167,23 @@ fn run_fit<F: Fl>(pb: &Problem, want_pr: bool) -> Result<Published, String> {
                 }};
             }
             if want_pr {
-                let m: Svm<F, Pr> = params!(Pr).fit(&ds).map_err(|e| format!("fit error: {e}"))?;
-                let (alpha, rho, dec_model, nsupport, display, r) = collect(&m, &all);
+                let mut m: Svm<F, Pr> = params!(Pr).fit(&ds).map_err(|e| format!("fit error: {e}"))?;
+                let (alpha, rho, dec_model, nsupport, display, r, subthreshold) = collect(&mut m, &all);
                 let pr: Array1<Pr> = m.predict(&all);
                 Ok(Published {
                     alpha, rho, dec_model,
                     pred_bool: None, pred_val: None,
                     pred_pr: Some(pr.iter().map(|p| **p as f64).collect()),
-                    nsupport, display, r_serialised: r,
+                    nsupport, display, r_serialised: r, subthreshold,
                 })
             } else {
-                let m: Svm<F, bool> = params!(bool).fit(&ds).map_err(|e| format!("fit error: {e}"))?;
-                let (alpha, rho, dec_model, nsupport, display, r) = collect(&m, &all);
+                let mut m: Svm<F, bool> = params!(bool).fit(&ds).map_err(|e| format!("fit error: {e}"))?;
+                let (alpha, rho, dec_model, nsupport, display, r, subthreshold) = collect(&mut m, &all);
                 let pb_: Array1<bool> = m.predict(&all);
                 Ok(Published {
                     alpha, rho, dec_model,
                     pred_bool: Some(pb_.to_vec()), pred_val: None, pred_pr: None,
-                    nsupport, display, r_serialised: r,
+                    nsupport, display, r_serialised: r, subthreshold,
                 })
             }
         }
@@ -176,13 +191,13 @@ fn run_fit<F: Fl>(pb: &Problem, want_pr: bool) -> Result<Published, String> {
             let ds = DatasetBase::from(x.clone());
             let p = Svm::<F, Pr>::params().eps(eps).shrinking(pb.shrinking).nu_weight(F::cast(nu));
             let p = apply_kernel(p, pb.kern);
-            let m: Svm<F, bool> = p.fit(&ds).map_err(|e| format!("fit error: {e}"))?;
-            let (alpha, rho, dec_model, nsupport, display, r) = collect(&m, &all);
+            let mut m: Svm<F, bool> = p.fit(&ds).map_err(|e| format!("fit error: {e}"))?;
+            let (alpha, rho, dec_model, nsupport, display, r, subthreshold) = collect(&mut m, &all);
             let pb_: Array1<bool> = m.predict(&all);
             Ok(Published {
                 alpha, rho, dec_model,
                 pred_bool: Some(pb_.to_vec()), pred_val: None, pred_pr: None,
-                nsupport, display, r_serialised: r,
+                nsupport, display, r_serialised: r, subthreshold,
             })
         }
         Kind::EpsSvr { .. } | Kind::NuSvr { .. } => {
@@ -195,15 +210,15 @@ fn run_fit<F: Fl>(pb: &Problem, want_pr: bool) -> Result<Published, String> {
                 Kind::NuSvr { nu, c } => p.nu_svr(F::cast(nu), Some(F::cast(c))),
                 _ => unreachable!(),
             };
-            let m = F::fit_reg(p, &ds).map_err(|e| format!("fit error: {e}"))?;
-            let (alpha, rho, dec_model, nsupport, display, r) = collect(&m, &all);
+            let mut m = F::fit_reg(p, &ds).map_err(|e| format!("fit error: {e}"))?;
+            let (alpha, rho, dec_model, nsupport, display, r, subthreshold) = collect(&mut m, &all);
             let pv = F::predict_reg(&m, &all);
             Ok(Published {
                 alpha, rho, dec_model,
                 pred_bool: None,
                 pred_val: Some(pv.iter().map(|v| to64(*v)).collect()),
                 pred_pr: None,
-                nsupport, display, r_serialised: r,
+                nsupport, display, r_serialised: r, subthreshold,
             })
         }
     }
@@ -259,6 +274,19 @@ fn judge(c: &mut Case, pb: &Problem, pu: &Published, epsf: f64, fname: &str) -> 
         }
         *fq = s - pu.rho;
         fabs[q] = sa + pu.rho.abs();
+    }
+    // --- a coefficient below the support-vector threshold stays without effect on the decision function
+    if let Some((j, shift)) = pu.subthreshold {
+        // linfa either ignores it (|alpha| <= 100 eps_F) or adds 50 eps_F K(x_j, x): both are below
+        let kj = (0..f.len())
+            .map(|q| kval(pb.kern, pb.x.row(j), if q < n { pb.x.row(q) } else { pb.fresh.row(q - n) }).abs())
+            .fold(0.0f64, f64::max);
+        let fmax = fabs.iter().cloned().fold(0.0f64, f64::max);
+        let floor = 64.0 * epsf * (kj + fmax + 1.0);
+        c.resid(&format!("subthreshold/{fname}/shift-over-floor"), shift / floor);
+        c.count("subthreshold-coefficient-injections");
+        ensure!(shift <= floor, "C13/decision/sub-threshold-coefficient-changes-decision-values",
+            {"case": desc, "index": j, "injected": 50.0 * epsf, "largest_change": shift, "floor": floor});
     }
     // --- decision value published by the model == oracle's
     for q in 0..f.len() {
